@@ -434,6 +434,39 @@ int main(int argc, char** argv)
             if (x.find('\0') != std::string::npos)
                 small.push_back(x);
     }
+    {
+        // particular bytes: characters that are special to printf, regex, shells and terminals, and the sign boundary of char
+        static const std::vector<char> ALPHAS = { 'a', '%', '\\', '$', '\x7f', '\x80', '\xff', '\t', '\r' };
+        for (auto& x : all_strings(2, ALPHAS))
+            if (x.find_first_not_of('a') != std::string::npos)
+            {
+                strings.push_back(x + "a" + x);
+                small.push_back(x);
+            }
+    }
+    // sizes: every short string stretched (repeated) to lengths around the thresholds an implementation may have (short
+    // string optimisation, small buffers, narrow counters)
+    size_t n_stretched = 0;
+    {
+        std::vector<std::string> stretched;
+        for (auto& b : all_strings(3))
+        {
+            if (b.empty())
+                continue;
+            for (size_t target : { 15u, 16u, 17u, 31u, 32u, 33u, 63u, 64u, 65u, 255u, 256u, 257u, 1000u })
+            {
+                if (a.asan() && target > 65)
+                    continue;
+                std::string x;
+                while (x.size() < target)
+                    x += b;
+                x.resize(target);
+                stretched.push_back(x);
+            }
+        }
+        n_stretched = stretched.size();
+        strings.insert(strings.end(), stretched.begin(), stretched.end());
+    }
     auto elems = all_strings(2);
     std::vector<std::string> infixes = { " ", ",", ", ", "", "ab" };
     mc::Sharded sh;
@@ -565,6 +598,21 @@ int main(int argc, char** argv)
         }
     };
     auto rep = sh.run();
+    // join at sizes: many elements, long elements
+    for (size_t count : { 17u, 64u, 257u, 1000u })
+        for (size_t len : { 1u, 16u, 300u })
+            for (auto infix : { ",", "" , ", " })
+            {
+                std::vector<std::string> el;
+                for (size_t i = 0; i < count; i++)
+                    el.push_back(i % 7 == 3 ? std::string() : std::string(len, static_cast<char>('a' + i % 26)));
+                std::vector<Fail> f;
+                check_join(el, infix, f);
+                rep.count("executions", 3);
+                for (auto& x : f)
+                    rep.violation(x.clause, "C17:" + x.clause + ":many-or-long-elements", mc::J().s("fn", "join").l("elements", el).s("infix", infix).str(),
+                                  x.detail.substr(0, 300), 0);
+            }
     // join over non-string elements (streamed): one deterministic sanity case outside the enumeration
     {
         std::vector<int> nums = { 1, 22, 3 };
@@ -574,6 +622,7 @@ int main(int argc, char** argv)
                           "join of ints {1,22,3} with '-' gives " + nitro::lang::join(nums.begin(), nums.end(), "-"), 0);
         (void)lst;
     }
+    rep.counters["stretched_strings"] = n_stretched;
     rep.counters["bound_string_len"] = L;
     rep.counters["strings"] = strings.size();
     rep.counters["patterns_and_replacements"] = small.size();
